@@ -38,6 +38,17 @@ func genOp(t *rapid.T) Op {
 	case "new":
 		op.Xs = rapid.SliceOfN(rapid.IntRange(1, 99), 0, 5).Draw(t, "xs")
 		op.Spare = rapid.IntRange(0, 3).Draw(t, "spare")
+		switch rapid.IntRange(0, 19).Draw(t, "big") {
+		case 0:
+			op.Spare = rapid.IntRange(1100, 2500).Draw(t, "hugeSpare") // a short window of a big buffer
+		case 1:
+			n := rapid.IntRange(1020, 1100).Draw(t, "longNew") // more elements than any plausible block size
+			k := rapid.IntRange(1, 13).Draw(t, "stride")
+			op.Xs = make([]int, n)
+			for i := range op.Xs {
+				op.Xs[i] = 1 + (i*k)%97
+			}
+		}
 	case "cons":
 		op.X = rapid.IntRange(100, 999).Draw(t, "x")
 	case "fold":
